@@ -23,6 +23,7 @@ type Job struct {
 	Mode  app.Mode      `json:"mode"`
 	Dir   string        `json:"dir"` // scratch directory (fs backend)
 	Alt   []int         `json:"alt"` // per session: 1 other output size, 2 second application
+	UsePo bool          `json:"use_po"`
 }
 
 type Answer struct {
@@ -59,7 +60,14 @@ func main() {
 		if i < len(job.Alt) && job.Alt[i] == 2 {
 			a = app.SecondApp(a)
 		}
-		s := app.NewSession(app.NewShared(a), job.Mode, st)
+		sh := app.NewShared(a)
+		if job.UsePo {
+			pd := filepath.Join(job.Dir, fmt.Sprintf("po%d", i))
+			if err := sh.WritePo(pd); err == nil {
+				sh.UsePo, sh.PoDir = true, pd
+			}
+		}
+		s := app.NewSession(sh, job.Mode, st)
 		if i < len(job.Alt) && job.Alt[i] == 1 {
 			s.Cfg.OutputSize = app.OtherOutputSize(s.Cfg.OutputSize)
 		}
